@@ -622,16 +622,27 @@ def pull_ack_frame(buf: Buffer) -> tuple[RangeSet, int]:
     return rangeset, delay
 
 
-def push_ack_frame(buf: Buffer, rangeset: RangeSet, delay: int) -> int:
+def push_ack_frame(
+    buf: Buffer, rangeset: RangeSet, delay: int, max_ranges: Optional[int] = None
+) -> int:
+    """
+    Write an ACK frame body, returns the number of ranges written.
+
+    If `max_ranges` is given, only the ranges with the highest packet numbers
+    are written.
+    """
     ranges = len(rangeset)
-    index = ranges - 1
+    if max_ranges is not None and ranges > max_ranges:
+        ranges = max_ranges
+    index = len(rangeset) - 1
+    last = index - (ranges - 1)
     r = rangeset[index]
     buf.push_uint_var(r.stop - 1)
     buf.push_uint_var(delay)
-    buf.push_uint_var(index)
+    buf.push_uint_var(ranges - 1)
     buf.push_uint_var(r.stop - 1 - r.start)
     start = r.start
-    while index > 0:
+    while index > last:
         index -= 1
         r = rangeset[index]
         buf.push_uint_var(start - r.stop - 1)
